@@ -704,6 +704,9 @@ def main() -> int:
     items += matrix_items(rng, per_cell)
     for j in range(400 if thorough else 40):
         items.append(('shape', (base + 900_000 + j, 250)))
+    # argument passing with aliased variables: the alias monitor decides (the call itself may be an open cell)
+    for label, text in G.argpass_cases(rng, 12 if thorough else 4):
+        items.append(('literal', {'files': {'meson.build': text}, 'pkind': 'argpass', 'label': label}))
     # probes first, everything else interleaved so that a time-budget cut loses every class proportionally
     n_probe = len(PROBES)
     rest = items[n_probe:]
